@@ -20,7 +20,7 @@ ASSUME_COMMON = [
 ]
 
 # Families whose schedules must not depend on PYTHONHASHSEED (no string-hashed sets).
-HASHSEED_INDEPENDENT = ['c04:queue', 'c05:fail', 'c05:stop', 'c05:timeout', 'c13:par', 'c03:strategy', 'c10:ckpt']
+HASHSEED_INDEPENDENT = ['c04:queue', 'c05:fail', 'c05:stop', 'c05:timeout', 'c13:par', 'c03:strategy', 'c10:ckpt', 'c12:skip']
 
 CHECKS = {
     'C04': {
@@ -123,5 +123,25 @@ CHECKS = {
             'of the documented state)',
             'the reference is the uninterrupted sequential run of the same pipeline over the same source'],
         'probes': ['probe:second_generation_restore', 'probe:checkpoint_of_threaded_pipeline', 'probe:nested_shards'],
+    },
+    'C12': {
+        'families': [['c12:skip', 1.0]],
+        'runs': {'quick': 24000, 'thorough': 1200000},
+        'budget': {'quick': 110, 'thorough': 1500},
+        'level': 'fault_enumeration',
+        'rule': ('each evaluation injects 1-4 failures at drawn positions into one seam of a pipeline: element and '
+                 'slice reads of the data source (this is where _RangeIterator reads ahead and falls back), the '
+                 'function of an apply / assign / filter operator, or a sink write; error types skippable '
+                 '(ValueError, TypeError) and not (KeyError, RuntimeError); skipping on/off (source-level and '
+                 'operator-level separately); with and without fn_batch_size/batch_size; num_threads 0..2 under a '
+                 'seeded schedule. Reference = the same pipeline without faults, minus the elements whose processing '
+                 'fails. Non-trivial = at least one injected error fired; distinct = distinct event-log digests'),
+        'real': REAL_COMMON,
+        'stub': STUB_COMMON,
+        'assumptions': ASSUME_COMMON + [
+            'a failing function call drops its whole call batch (fn_batch_size rows) and nothing else',
+            'for assign the output batch size equals the incoming batch size (assign merges outputs into its inputs)',
+            'a slice read of the source fails iff it covers a failing index'],
+        'probes': ['probe:range_iterator_readahead_fallback', 'probe:failure_inside_rebatched_call'],
     },
 }
